@@ -63,11 +63,13 @@ def run(ctx):
         ctx.oblige("corr_ok shard %d (%d stores): forallb case_ok cases = true" % (info["shard"], info["n"]), info["rc"] == 0)
 
     bad, inconclusive = [], []
+    code_of = {}
     for c, r in zip(good, results):
         if r is None:
             bad.append((c, None, "model evaluation produced no result for this store (coqc failed on its shard)", False))
             continue
         code, ix, mon = r[0], r[1], r[2]
+        code_of[id(c)] = code
         if code == 9:
             inconclusive.append(c)
             if mon == 1:
@@ -85,24 +87,42 @@ def run(ctx):
         ctx.violation(dict(kind="stores-not-observable", broken="corr_select: the child process running coercion.New crashed or hung on %d of %d stores"
                            % (len(lost), len(cases)), case=c["id"], input=c.get("input"), note=c.get("note", "")[:3000]), nofail=True)
     if bad:
-        # property monitor false first (a concrete violation), smallest store first
-        def half_closed(o):
-            return bool(o) and o.get("status") == "Running" and o.get("after_status") == "Failed" and o.get("running_after", 0) > 0
-        bad.sort(key=lambda x: (not x[3], not half_closed(x[1]), x[0]["dist"]["plans"]))
-        c, plan_obs, why, monfalse = bad[0]
-        if plan_obs and plan_obs.get("status") == "Running" and plan_obs.get("after_status") == "Failed" and plan_obs.get("running_after", 0) > 0:
-            why += " -- aged plan closed incompletely: the plan row is Failed but %d object(s) in it are still Running in the store (%d Update* call(s) seen)" % (
-                plan_obs["running_after"], plan_obs.get("vault_writes", 0))
-        elif plan_obs and plan_obs.get("status") == "Running" and plan_obs.get("after_status") == "Failed" and plan_obs.get("after_reason") != "FRExceedRecovery":
-            why += " -- aged plan closed with stored reason %s instead of FRExceedRecovery" % plan_obs.get("after_reason")
-        ctx.violation(dict(
-            kind="recovery-selection-differs" if not monfalse else "property-violated",
-            why=why, monitor_false=monfalse, case=c["id"], input=c["input"], dist=c["dist"], offending_plan=plan_obs,
-            store=c["observed"], failing_cases=len(bad), case_coq=c["coq"],
-            broken=None if monfalse else "corr_ok (SelectCheck.case_ok): the implementation's recovery left a store the model does not predict",
-            replay_cmd="VERIF_SEED=%s ./check C11 --tier %s   (store index %s; or ./check C11 --replay <this file>)"
-                       % (ctx.seed, ctx.tier, c["input"].get("index"))),
-            nofail=not monfalse)
+        # one VIOLATION per class of failure (a concrete replay each), property-monitor-false classes first,
+        # the smallest store of each class
+        def klass(x):
+            c, o, why, monfalse = x
+            code = code_of.get(id(c))
+            if o and o.get("status") == "Running" and o.get("after_status") == "Failed" and o.get("running_after", 0) > 0:
+                return "aged-plan-half-closed"
+            if code == 7:
+                return "live-plan-closed"
+            return "code-%s" % code
+        groups = {}
+        for x in bad:
+            groups.setdefault(klass(x), []).append(x)
+        order = sorted(groups, key=lambda k: (not any(x[3] for x in groups[k]), k not in ("aged-plan-half-closed", "live-plan-closed"), k))
+        for k in order[:4]:
+            xs = sorted(groups[k], key=lambda x: (not x[3], x[0]["dist"]["plans"]))
+            c, plan_obs, why, monfalse = xs[0]
+            if k == "aged-plan-half-closed":
+                why += " -- aged plan closed incompletely: the plan row is Failed but %d object(s) in it are still Running in the store (%d Update* call(s) seen)" % (
+                    plan_obs["running_after"], plan_obs.get("vault_writes", 0))
+            elif k == "live-plan-closed" and plan_obs:
+                why += " -- witness of the most recent activity: %s (age kind %s, %.3f s old at crafting, maxAge %s); stored afterwards: %s/%s" % (
+                    plan_obs.get("witness"), plan_obs.get("age_kind"), plan_obs.get("age_ns", 0) / 1e9, c["dist"].get("max_age"),
+                    plan_obs.get("after_status"), plan_obs.get("after_reason"))
+                if str(plan_obs.get("witness", "")).startswith("attempt."):
+                    why += " -- the recent record is an attempt: lastUpdate ignores attempts"
+            elif plan_obs and plan_obs.get("status") == "Running" and plan_obs.get("after_status") == "Failed" and plan_obs.get("after_reason") != "FRExceedRecovery":
+                why += " -- aged plan closed with stored reason %s instead of FRExceedRecovery" % plan_obs.get("after_reason")
+            ctx.violation(dict(
+                kind="recovery-selection-differs" if not monfalse else "property-violated", failure_class=k,
+                why=why, monitor_false=monfalse, case=c["id"], input=c["input"], dist=c["dist"], offending_plan=plan_obs,
+                store=c["observed"], failing_cases=len(xs), failing_cases_all_classes=len(bad), case_coq=c["coq"],
+                broken=None if monfalse else "corr_ok (SelectCheck.case_ok): the implementation's recovery left a store the model does not predict",
+                replay_cmd="VERIF_SEED=%s ./check C11 --tier %s   (store index %s; or ./check C11 --replay <this file>)"
+                           % (ctx.seed, ctx.tier, c["input"].get("index"))),
+                nofail=not monfalse)
 
     plans = [d for c in good for d in (c.get("observed") or [])]
     resumed = [d for d in plans if d["plugin_calls"] + d["vault_writes"] > 0 and d["after_reason"] != "FRExceedRecovery"]
@@ -132,6 +152,8 @@ def run(ctx):
             recovery_flag=fw.histogram(c["dist"]["recovery"] for c in good),
             max_age=fw.histogram(c["dist"]["max_age"] for c in good),
             file_backed=fw.histogram(c["dist"]["file_backed"] for c in good),
+            option_order_when_both_passed=fw.histogram(c["dist"].get("option_order") for c in good
+                                                       if not c["dist"]["recovery"] and c["dist"]["max_age"] != "default30m"),
             status_before=fw.histogram(d["status"] for d in plans),
             age_kind_of_running_plans=fw.histogram(d["age_kind"] for d in plans if d["status"] == "Running"),
             age_kind_of_other_plans=fw.histogram(d["age_kind"] for d in plans if d["status"] != "Running"),
@@ -152,5 +174,5 @@ def run(ctx):
         "resumption is observed as 'plugin call or vault write for the plan'; what a resumed plan then does is C09/C10's matter, a resumed plan that misses the deadline is only counted",
         "Wait's knowledge of an id is not directly observable through the public API (Workstream.Wait falls back to Read for unknown ids); it is observed through the waiting itself",
         "the harness's abstraction of plans to Coq terms (ids interned per store), its own walk-order traversal, the logging/limiting vault wrappers",
-        "lastUpdate looks at object states only, not at attempts (transcribed as is; a plan whose only recent record is an attempt end is aged out)",
+        "lastUpdate counts the start/end of every object and of every attempt of every action (since fix d8f84b2, R4); the 'attempt-recent' cases (all states far older than maxAge, one attempt 1 ms old) must be resumed",
     ])
